@@ -4,6 +4,7 @@
 -/
 import Lemmas.PipelineFacts
 import Lemmas.HNormPipeline
+import Lemmas.LastOkUnicode
 import Lemmas.OptimalOneLine
 import Lemmas.InplaceWrap
 import Lemmas.Ansi
@@ -486,6 +487,22 @@ theorem shortcut_sound_optimal_all (env : Env) (hcw : ∀ c, env.cw c ≤ c.utf8
   simp only [Option.map_some, Option.some.injEq]
   rw [one_line_render env o line nPrev frs c2 hl hnp c1, hind]
   simp [LineD.render]
+
+/-- **Unicode separator: the shortcut is sound for every line**, first-fit, built-in splitters,
+    `break_words` on/off — relative to one clause of the contract of the external
+    `unicode-linebreak` routine (`OppsNoSpace`: no break opportunity directly before a space,
+    UAX #14 rule LB7; validated by the harness on every case) -/
+-- @audit TW.C05.shortcut_sound_unicode_all
+theorem shortcut_sound_unicode_all (env : Env) (hcw : ∀ c, env.cw c ≤ c.utf8Size)
+    (mo : MinimaOracle Int) (o : Opts) (hb : Builtin o.splitter) (halg : o.alg = .firstFit)
+    (hsep : o.sep = .unicode) (line : Text) (nPrev : Nat)
+    (hc : OppsNoSpace (stripAnsi line) (env.opps (stripAnsi line))) (frs : List Word)
+    (hpipe : pipeline env o line (o.width - displayWidth env.cw o.subsequentIndent) = some frs)
+    (hshort : blen line < o.width ∧ (indentOf o nPrev).isEmpty = true) :
+    (wrapSingleLineSlow env mo o line nPrev).map (·.map LineD.render) =
+      (wrapSingleLine env mo o line nPrev).map (·.map LineD.render) :=
+  shortcut_sound_firstfit_all env hcw mo o hb halg line nPrev frs hpipe
+    (pipeline_lastOk_unicode env o hsep (builtin_inRange _ _ hb) line hc _ frs hpipe) hshort
 
 /-! ### coloured text: H-norm discharged for safe lines -/
 
